@@ -395,6 +395,20 @@ func c03R4(c *Ctx) {
 	freshAfterHandoff(c, c.fn("wrapTransferInput$1"), "wrapTransferInput", isAddRecv)
 	freshAfterHandoff(c, c.fn("TrzszFilter.wrapOutput"), "TrzszFilter.wrapOutput", isAddRecv)
 	c13R6(c)
+	// queueing never drops: addBuffer is one unconditional send of its argument
+	ab := c.fn("trzszBuffer.addBuffer")
+	nSend, other := 0, false
+	eachInstr(ab, func(in ssa.Instruction) {
+		switch x := in.(type) {
+		case *ssa.Send:
+			if isVar("buf")(x.X) && chanName(x.Chan) == "bufCh" {
+				nSend++
+			}
+		case *ssa.Select, *ssa.If:
+			other = true
+		}
+	})
+	c.check(nSend == 1 && !other, "addBuffer/unconditional-send", c.pos(ab.Pos()), "every chunk handed to the buffer is queued (blocking send, no drop path)", "a chunk handed to the stream buffer can be dropped (conditional / non-blocking queueing)")
 	// addReceivedData queues exactly the slice it was given (no copy is relied upon, none is needed)
 	ar := c.fn("trzszTransfer.addReceivedData")
 	for _, ci := range callsIn(ar, idIs("(*trzsz.trzszBuffer).addBuffer")) {
